@@ -217,6 +217,7 @@ def run(ctx):
     for i in range(0, len(cases), 300):
         evaluate(ctx, cases[i:i + 300], 'random')
     big_agreement(ctx, rng)
+    gl.factory_after_failure(ctx, rng, THEOREM)
 
 
 def replay(ctx, data):
